@@ -108,6 +108,7 @@ MInit ==
       drvlast |-> 0,
       sig |-> <<>>,        \* payload -> plain entity whose auto-despawn signal travels in it
       doomedE |-> {},      \* plain entities whose signal has been released: the next GC must despawn them
+      deadop |-> FALSE,    \* some register / revoke op named an entity that was already despawned when it was applied
       taint |-> {},        \* commands whose start overlapped another pending delivery to the same system (finding F1)
       viol |-> {} ]
 
@@ -273,13 +274,13 @@ OnIssue(m, o) ==
                 IN IF cur # 0 /\ o.ret = 1 THEN [m1 EXCEPT !.comp = Put(@, <<op[2], op[3]>>, op[4])] ELSE m1
          [] n = "set" ->
                 LET cur == Get(m.comp, <<op[2], op[3]>>, 0)
-                    want == IF cur # 0 /\ cur # op[4] THEN cur ELSE -1
+                    want == IF cur # 0 /\ (cur % 100) # (op[4] % 100) THEN cur ELSE -1      \* values equal modulo 100 compare equal
                     m1 == Chk(m0, o.ret = want, "C14", "set_if_neq returned the wrong old value")
                 IN IF o.ret # -1 THEN [m1 EXCEPT !.comp = Put(@, <<op[2], op[3]>>, op[4])] ELSE m1
          [] n \in {"resmut", "resno"} -> [m0 EXCEPT !.res = Put(@, op[2], op[3])]
          [] n = "resset" ->
                 LET cur == Get(m.res, op[2], 0)
-                    want == IF cur # op[3] THEN cur ELSE -1
+                    want == IF (cur % 100) # (op[3] % 100) THEN cur ELSE -1
                     m1 == Chk(m0, o.ret = want, "C14", "resource set_if_neq returned the wrong old value")
                 IN IF o.ret # -1 THEN [m1 EXCEPT !.res = Put(@, op[2], op[3])] ELSE m1
          [] n = "ins" -> Chk(m0, (o.ret = 1) <=> (op[2] \in m.aliveE), "C14", "insert queued/skipped against entity liveness")
@@ -302,8 +303,16 @@ ExpSched(m, op, ret) ==
       [] OTHER -> <<0, "">>
 
 (* shadow effects of the op at the moment its commands are applied *)
-ApplyEffects(m, op, ret) ==
-    LET n == OpName(op) IN
+NamesDead(m, b) == \E i \in DOMAIN b : KeyOf(b[i]).e # 0 /\ KeyOf(b[i]).e \notin m.aliveE
+ApplyEffects(m0, op, ret) ==
+    LET n == OpName(op)
+        bun == CASE n \in {"reg", "on"} -> op[4]
+                 [] n \in {"once", "wadd", "wrem", "erem"} -> op[3]
+                 [] n = "revoke" -> IF op[2] \in DOMAIN m0.tok THEN m0.tok[op[2]].b ELSE <<>>
+                 [] n = "eadd" -> << <<"emut", op[3], 1>> >>
+                 [] OTHER -> <<>>
+        m == IF NamesDead(m0, bun) THEN [m0 EXCEPT !.deadop = TRUE] ELSE m0
+    IN
     CASE n = "reg" -> AddReg(m, op[3], op[4], op[2] # "persistent")
       [] n = "once" -> AddReg([m EXCEPT !.alive = @ \cup {op[2]}, !.once = @ \cup {op[2]}], op[2], op[3], TRUE)
       [] n = "on" -> AddReg([m EXCEPT !.alive = @ \cup {op[3]}], op[3], op[4], op[2] # "persistent")
@@ -716,7 +725,8 @@ OnQuiesce(m, o) ==
         treeDesp == \E i \in DOMAIN m.pendDesp : m.pendDesp[i].tree /\ ~m.pendDesp[i].seen
                       /\ \E x \in Range(m.reg) : x.kd = "desp" /\ x.e = m.pendDesp[i].e /\ x.s \in m.alive
         m7 == IF treeRem \/ treeDesp
-              THEN V2(m7a, "C08", "C11", "a removal or despawn inside a reaction tree was still unreported when the tree ended")
+              THEN V(V2(m7a, "C08", "C11", "a removal or despawn inside a reaction tree was still unreported when the tree ended"),
+                     "C09", "a removal or despawn inside a reaction tree was still unreported when the tree ended")
               ELSE m7a
         \* liveness of systems and entities
         m8 == Chk(m7, Elems(o.alive_sys) = m.alive, "C07", "set of living reactors differs from what their triggers imply")
@@ -726,8 +736,9 @@ OnQuiesce(m, o) ==
         tcount(k) == Cardinality({ i \in DOMAIN o.tables : <<o.tables[i][1], o.tables[i][2], o.tables[i][3], o.tables[i][4]>> = k })
         rcount(k) == Cardinality({ i \in DOMAIN m.reg : <<m.reg[i].kd, m.reg[i].ty, m.reg[i].e, m.reg[i].s>> = k })
         tabok == \A k \in tkeys : k[4] \in m.alive => tcount(k) = rcount(k)
-        m10 == IF tabok THEN m9 ELSE V(IF m.anyrev THEN V(m9, "C06", "registration tables differ from registrations minus revocations") ELSE m9,
-                                      "C01", "registration tables differ from registrations minus revocations")
+        m10a == IF tabok THEN m9 ELSE V(IF m.anyrev THEN V(m9, "C06", "registration tables differ from registrations minus revocations") ELSE m9,
+                                       "C01", "registration tables differ from registrations minus revocations")
+        m10 == IF ~tabok /\ m.deadop THEN V(m10a, "C18", "registration tables are wrong after a register / revoke operation that named a despawned entity") ELSE m10a
         \* one-off reactors
         oncebad == \E s \in m.onceRan : s \in Elems(o.alive_sys) \/ (\E x \in Elems(o.tables) : x[4] = s)
         m11 == Chk(m10, ~oncebad, "C15", "a one-off reactor or one of its triggers survived its run")
